@@ -83,6 +83,9 @@ enum Src {
     LatestUnderApproveCommand,
     /// the latest set with its first entry listed twice (both signed)
     LatestWithRepeatedEntry,
+    /// the latest set; only its first signer (whose weight is below the threshold) signs genuinely,
+    /// every other slot carries a signature made with the first signer's key
+    LatestFirstGenuineRestForeign,
 }
 
 #[derive(Clone, Copy, Debug, PartialEq, Eq, Hash, Serialize, Deserialize)]
@@ -193,7 +196,7 @@ impl Scenario for C03 {
             v.push(Act::Advance(7_000_000));
         }
         for cand in [A, B, C, I0, I1] {
-            for src in [Src::Latest, Src::Older, Src::Outdated, Src::NeverInstalled, Src::LatestForOtherCandidate, Src::LatestUnderApproveCommand, Src::LatestWithRepeatedEntry] {
+            for src in [Src::Latest, Src::Older, Src::Outdated, Src::NeverInstalled, Src::LatestForOtherCandidate, Src::LatestUnderApproveCommand, Src::LatestWithRepeatedEntry, Src::LatestFirstGenuineRestForeign] {
                 for byp in [Byp::No, Byp::Operator, Byp::NoAuth, Byp::OwnerAuth] {
                     if byp == Byp::OwnerAuth && src != Src::Older {
                         continue;
@@ -278,7 +281,7 @@ impl Scenario for C03 {
                 // who signs
                 let never = SetSpec { signers: vec![(3, 1)], threshold: 1, nonce: 77 };
                 let (signer_spec, signer_epoch): (Option<SetSpec>, Option<usize>) = match src {
-                    Src::Latest | Src::LatestForOtherCandidate | Src::LatestUnderApproveCommand | Src::LatestWithRepeatedEntry => (ctx.specs[m.installed[n - 1]].clone(), Some(n)),
+                    Src::Latest | Src::LatestForOtherCandidate | Src::LatestUnderApproveCommand | Src::LatestWithRepeatedEntry | Src::LatestFirstGenuineRestForeign => (ctx.specs[m.installed[n - 1]].clone(), Some(n)),
                     Src::Older => {
                         if n >= 2 {
                             (ctx.specs[m.installed[n - 2]].clone(), Some(n - 1))
@@ -300,6 +303,10 @@ impl Scenario for C03 {
                     out.kind = "rotate-unavailable";
                     return;
                 };
+                if *src == Src::LatestFirstGenuineRestForeign && (spec.signers.len() < 2 || spec.signers[0].1 >= spec.threshold) {
+                    out.kind = "rotate-unavailable";
+                    return;
+                }
                 let candidate = &ctx.cands[*cand];
                 let signed_for = if *src == Src::LatestForOtherCandidate {
                     &ctx.cands[if *cand == A { B } else { A }]
@@ -322,6 +329,11 @@ impl Scenario for C03 {
                     let mut sigs = vec![Some(sign(&ctx.keys, spec.signers[0].0, &d))];
                     sigs.extend(spec.signers.iter().map(|(k, _)| Some(sign(&ctx.keys, *k, &d))));
                     proof_scval(&declared, &sigs)
+                } else if *src == Src::LatestFirstGenuineRestForeign {
+                    let installed = spec.raw(&ctx.keys);
+                    let d = digest(&DOMAIN, &installed.hash(), &data_hash);
+                    let sigs: Vec<Option<[u8; 64]>> = spec.signers.iter().map(|_| Some(sign(&ctx.keys, spec.signers[0].0, &d))).collect();
+                    proof_scval(&installed, &sigs)
                 } else {
                     honest_proof(&ctx.keys, &spec, &DOMAIN, &data_hash)
                 };
@@ -339,7 +351,7 @@ impl Scenario for C03 {
                 );
                 out.accepted = call.ok;
                 let proof_ok = match (src, signer_epoch) {
-                    (Src::LatestForOtherCandidate, _) | (Src::LatestUnderApproveCommand, _) | (Src::LatestWithRepeatedEntry, _) => false,
+                    (Src::LatestForOtherCandidate, _) | (Src::LatestUnderApproveCommand, _) | (Src::LatestWithRepeatedEntry, _) | (Src::LatestFirstGenuineRestForeign, _) => false,
                     (_, None) => false,
                     (_, Some(e)) => match byp {
                         Byp::No => e == n,
@@ -425,7 +437,7 @@ fn main() {
         let mut o = Opts::new(tier, if thorough { 9 } else { 7 });
         o.min_depth = 3;
         o.xcheck = tier == "thorough";
-        o.rule = "retention 1 (thorough: also 0 and 2); construction through a factory with initial lists [], [I0], [I0,I1], [I0,I0], [I0,I1,I0], [I0,I1,A], [A,A,B], [I0,malformed_i], [malformed_i] (12 malformed shapes: empty, adjacent duplicate key with equal and with ascending weights (first and last position), descending keys, all-zero key, zero weight, weights summing past u128 at the last / first / a middle signer with the wrapped total reaching the threshold, threshold 0, threshold total+1); then all rotation sequences over candidates {A,B,C(33 signers, threshold==total),I0,I1, 12 malformed} x proof source {latest, older retained, outdated, never-installed, latest-signing-another-candidate, latest-signing-under-the-approval-command-tag, latest with one entry listed twice} x bypass {no, operator, no auth, owner auth}; after every new state epoch(), signers_hash_by_epoch(e) for all e in 0..=epoch+1 and epoch_by_signers_hash(h) for all 17 candidate hashes are compared with the installed list".into();
+        o.rule = "retention 1 (thorough: also 0 and 2); construction through a factory with initial lists [], [I0], [I0,I1], [I0,I0], [I0,I1,I0], [I0,I1,A], [A,A,B], [I0,malformed_i], [malformed_i] (12 malformed shapes: empty, adjacent duplicate key with equal and with ascending weights (first and last position), descending keys, all-zero key, zero weight, weights summing past u128 at the last / first / a middle signer with the wrapped total reaching the threshold, threshold 0, threshold total+1); then all rotation sequences over candidates {A,B,C(33 signers, threshold==total),I0,I1, 12 malformed} x proof source {latest, older retained, outdated, never-installed, latest-signing-another-candidate, latest-signing-under-the-approval-command-tag, latest with one entry listed twice, latest with only the first signer (below the threshold) signing genuinely and every other slot filled with a signature by that signer's key} x bypass {no, operator, no auth, owner auth}; after every new state epoch(), signers_hash_by_epoch(e) for all e in 0..=epoch+1 and epoch_by_signers_hash(h) for all 17 candidate hashes are compared with the installed list".into();
         (s, o)
     });
 }
